@@ -1,14 +1,725 @@
 package main
 
+// Replay of solver counterexamples against the real code.
+//
+// The model of a failed obligation is turned into a concrete pre-state (arguments, scalar fields
+// of the receiver and of pointer arguments, short slices), a generated in-package Go test calls
+// the real function through `go test -overlay` (nothing is written into the repository), and the
+// failed clause (or "no panic" for safety obligations) is evaluated on what the real code did.
+
+import (
+	"context"
+	"encoding/json"
+	"fmt"
+	"go/types"
+	"os"
+	"os/exec"
+	"path/filepath"
+	"regexp"
+	"strconv"
+	"strings"
+	"time"
+
+	"golang.org/x/tools/go/ssa"
+)
+
 // ReplayResult describes the attempt to reproduce a counterexample on the real code.
 type ReplayResult struct {
-	Reproduced bool   `json:"reproduced"`
-	Reason     string `json:"reason,omitempty"`
-	TestFile   string `json:"test_file,omitempty"`
-	Command    string `json:"command,omitempty"`
-	Output     string `json:"output,omitempty"`
+	Reproduced bool              `json:"reproduced"`
+	Reason     string            `json:"reason,omitempty"`
+	Inputs     map[string]string `json:"inputs,omitempty"`
+	TestFile   string            `json:"test_file,omitempty"`
+	TestSource string            `json:"test_source,omitempty"`
+	Command    string            `json:"command,omitempty"`
+	Output     string            `json:"output,omitempty"`
 }
 
-func (ex *Exec) tryReplay(o *Obligation, model string, repo string, dir string) *ReplayResult {
-	return &ReplayResult{Reproduced: false, Reason: "no replay builder for this obligation class yet"}
+type replayQuery struct {
+	name string // rvN
+	term Term
+	path string // Go l-value or description
 }
+
+type replayBuilder struct {
+	ex      *Exec
+	o       *Obligation
+	script  string
+	queries []replayQuery
+	setup   []string // Go statements, with placeholders {rvN}
+	unsup   []string
+}
+
+func (rb *replayBuilder) q(t Term, path string) string {
+	n := fmt.Sprintf("rv%d", len(rb.queries))
+	rb.queries = append(rb.queries, replayQuery{n, t, path})
+	return "{" + n + "}"
+}
+
+func (rb *replayBuilder) declared(key string) bool {
+	return strings.Contains(rb.script, "(declare-const "+h0Name(key)+" ")
+}
+
+func goTypeString(t types.Type, pkg *types.Package) string {
+	return types.TypeString(t, func(p *types.Package) string {
+		if p == pkg {
+			return ""
+		}
+		return p.Name()
+	})
+}
+
+// structFields emits assignments for the scalar fields of the struct at reference ref.
+func (rb *replayBuilder) structFields(lv string, ref Term, st types.Type, pkg *types.Package, depth int) {
+	s, _ := structOf(st)
+	for i := 0; i < s.NumFields(); i++ {
+		f := s.Field(i)
+		if f.Name() == "_" {
+			continue
+		}
+		if f.Pkg() != pkg && !f.Exported() {
+			continue
+		}
+		ft := f.Type()
+		if _, isS := structOf(ft); isS {
+			if depth < 2 {
+				rb.structFields(lv+"."+f.Name(), subRef(ref, i), ft, pkg, depth+1)
+			}
+			continue
+		}
+		key := fieldKey(st, i)
+		if !rb.declared(key) {
+			continue
+		}
+		so := sortOfType(ft)
+		comp := Term{h0Name(key), arraySort(SInt, so)}
+		switch u := ft.Underlying().(type) {
+		case *types.Basic:
+			if so == SInt || so == SBool || so == SString {
+				rb.setup = append(rb.setup, fmt.Sprintf("%s.%s = %s(%s)", lv, f.Name(), goTypeString(ft, pkg), rb.q(mkSelect(comp, ref), lv+"."+f.Name())))
+			}
+		case *types.Slice:
+			rb.sliceValue(lv+"."+f.Name(), mkSelect(comp, ref), ft, u, pkg, true)
+		case *types.Signature:
+			// a non-nil function value where the model has one (its behaviour is a no-op)
+			if u.Results().Len() == 0 {
+				var ps []string
+				for k := 0; k < u.Params().Len(); k++ {
+					ps = append(ps, "_ "+goTypeString(u.Params().At(k).Type(), pkg))
+				}
+				rb.setup = append(rb.setup, fmt.Sprintf("if %s != 0 { %s.%s = %s(func(%s) {}) }", rb.q(mkSelect(comp, ref), lv+"."+f.Name()+"(non-nil?)"), lv, f.Name(), goTypeString(ft, pkg), strings.Join(ps, ", ")))
+			}
+		}
+	}
+}
+
+func (rb *replayBuilder) sliceValue(lv string, sl Term, t types.Type, u *types.Slice, pkg *types.Package, assign bool) {
+	eso := sortOfType(u.Elem())
+	if eso != SInt && eso != SString && eso != SBool {
+		rb.unsup = append(rb.unsup, lv+" (slice of "+u.Elem().String()+")")
+		return
+	}
+	if _, isBasic := u.Elem().Underlying().(*types.Basic); !isBasic {
+		rb.unsup = append(rb.unsup, lv)
+		return
+	}
+	ekey := elemKey(u.Elem())
+	ln := rb.q(sLen(sl), "len("+lv+")")
+	cp := rb.q(sCap(sl), "cap("+lv+")")
+	var elems []string
+	if rb.declared(ekey) {
+		comp := Term{h0Name(ekey), arraySort(SInt, arraySort(SInt, eso))}
+		for i := 0; i < 8; i++ {
+			elems = append(elems, fmt.Sprintf("%s(%s)", goTypeString(u.Elem(), pkg), rb.q(mkSelect(mkSelect(comp, sArr(sl)), app(SInt, "+", sOff(sl), intLit(int64(i)))), fmt.Sprintf("%s[%d]", lv, i))))
+		}
+	}
+	op := "="
+	if !assign {
+		op = ":="
+	}
+	rb.setup = append(rb.setup, fmt.Sprintf("%s %s verifMkSlice[%s](%s, %s, []%s{%s})", lv, op, goTypeString(u.Elem(), pkg), ln, cp, goTypeString(u.Elem(), pkg), strings.Join(elems, ", ")))
+	if t != u {
+		// named slice type: convert
+		rb.setup[len(rb.setup)-1] = fmt.Sprintf("%s %s %s(verifMkSlice[%s](%s, %s, []%s{%s}))", lv, op, goTypeString(t, pkg), goTypeString(u.Elem(), pkg), ln, cp, goTypeString(u.Elem(), pkg), strings.Join(elems, ", "))
+	}
+}
+
+func (ex *Exec) tryReplay(o *Obligation, _ string, repo string, dir string) *ReplayResult {
+	res := &ReplayResult{}
+	fn := ex.ld.funcs[o.Fn]
+	c := ex.ct.Funcs[o.Fn]
+	pt := ex.paramVals[o.Fn]
+	if fn == nil || c == nil || pt == nil {
+		res.Reason = "no function / parameter record for this obligation"
+		return res
+	}
+	if fn.Parent() != nil || len(fn.FreeVars) > 0 {
+		res.Reason = "closure bodies are not replayed (free variables)"
+		return res
+	}
+	if o.Class != "safe" && o.Class != "ensures" {
+		res.Reason = "obligation class " + o.Class + " has no replay (only safe/ensures obligations of the function itself are replayed)"
+		return res
+	}
+	pkg := fn.Pkg.Pkg
+	rb := &replayBuilder{ex: ex, o: o, script: ex.script(o, false)}
+	names := ex.paramNames(fn, c)
+	var callArgs []string
+	recv := ""
+	for i, p := range fn.Params {
+		v := pt[i]
+		name := "a_" + names[i]
+		isRecv := i == 0 && fn.Signature.Recv() != nil
+		switch u := p.Type().Underlying().(type) {
+		case *types.Basic:
+			so := sortOfType(p.Type())
+			if so != SInt && so != SBool && so != SString {
+				res.Reason = "parameter " + names[i] + " of unsupported basic type"
+				return res
+			}
+			rb.setup = append(rb.setup, fmt.Sprintf("%s := %s(%s)", name, goTypeString(p.Type(), pkg), rb.q(v.T, names[i])))
+		case *types.Pointer:
+			if _, isS := structOf(u.Elem()); !isS {
+				res.Reason = "parameter " + names[i] + ": pointer to non-struct"
+				return res
+			}
+			rb.setup = append(rb.setup, fmt.Sprintf("%s := new(%s)", name, goTypeString(u.Elem(), pkg)))
+			rb.structFields(name, v.T, u.Elem(), pkg, 0)
+		case *types.Slice:
+			rb.sliceValue(name, v.T, p.Type(), u, pkg, false)
+		default:
+			if v.Fields != nil {
+				// struct value parameter
+				rb.setup = append(rb.setup, fmt.Sprintf("var %s %s", name, goTypeString(p.Type(), pkg)))
+				s, _ := structOf(p.Type())
+				for k := 0; k < s.NumFields(); k++ {
+					so := sortOfType(s.Field(k).Type())
+					if _, isB := s.Field(k).Type().Underlying().(*types.Basic); isB && (so == SInt || so == SBool || so == SString) {
+						rb.setup = append(rb.setup, fmt.Sprintf("%s.%s = %s(%s)", name, s.Field(k).Name(), goTypeString(s.Field(k).Type(), pkg), rb.q(v.Fields[k].T, names[i]+"."+s.Field(k).Name())))
+					}
+				}
+			} else {
+				rb.setup = append(rb.setup, fmt.Sprintf("var %s %s // not taken from the model", name, goTypeString(p.Type(), pkg)))
+				rb.unsup = append(rb.unsup, names[i]+" ("+p.Type().String()+")")
+			}
+		}
+		if isRecv {
+			recv = name
+		} else {
+			callArgs = append(callArgs, name)
+		}
+	}
+	// ask the solver for the values
+	var sb strings.Builder
+	sb.WriteString(rb.script)
+	sb.WriteString("\n")
+	var qn []string
+	for _, q := range rb.queries {
+		fmt.Fprintf(&sb, "(define-fun %s () %s %s)\n", q.name, q.term.Sort, q.term.S)
+		qn = append(qn, q.name)
+	}
+	// the check-sat must come after the definitions: rebuild script order
+	full := strings.Replace(sb.String(), "(check-sat)\n", "", 1) + "(check-sat)\n"
+	if len(qn) > 0 {
+		full += "(get-value (" + strings.Join(qn, " ") + "))\n"
+	}
+	tmp, _ := os.MkdirTemp("", "ruxvcreplay")
+	defer os.RemoveAll(tmp)
+	vals := map[string]string{}
+	got := false
+	for _, sp := range solvers {
+		st, out, _ := runSolver(context.Background(), sp, full, tmp, "replay", 10)
+		if st == "sat" {
+			vals = parseGetValue(out)
+			got = true
+			break
+		}
+	}
+	if !got {
+		res.Reason = "no solver produced a model with values"
+		return res
+	}
+	res.Inputs = map[string]string{}
+	subst := func(s string) (string, bool) {
+		ok := true
+		out := regexp.MustCompile(`\{rv[0-9]+\}`).ReplaceAllStringFunc(s, func(m string) string {
+			n := m[1 : len(m)-1]
+			v, has := vals[n]
+			if !has {
+				ok = false
+				return "0"
+			}
+			g, good := smtValueToGo(v)
+			if !good {
+				ok = false
+				return "0"
+			}
+			return g
+		})
+		return out, ok
+	}
+	for _, q := range rb.queries {
+		if v, ok := vals[q.name]; ok {
+			if g, good := smtValueToGo(v); good {
+				res.Inputs[q.path] = g
+			}
+		}
+	}
+	var setup []string
+	for _, l := range rb.setup {
+		g, ok := subst(l)
+		if !ok {
+			res.Reason = "model value could not be converted: " + l
+			return res
+		}
+		setup = append(setup, g)
+	}
+	// call
+	sig := fn.Signature
+	var resNames []string
+	rn := resultNames(sig, c)
+	for i := 0; i < sig.Results().Len(); i++ {
+		resNames = append(resNames, "r_"+rn[i])
+	}
+	call := fn.Name() + "(" + strings.Join(callArgs, ", ") + ")"
+	if recv != "" {
+		if _, isPtr := fn.Params[0].Type().Underlying().(*types.Pointer); isPtr {
+			call = recv + "." + call
+		} else {
+			call = recv + "." + call
+		}
+	}
+	if sig.Variadic() && len(callArgs) > 0 {
+		call = strings.TrimSuffix(call, ")") + "...)"
+	}
+	// clause in Go (ensures only)
+	clauseGo := ""
+	var olds []string
+	if o.Class == "ensures" {
+		cl := findClause(c, o.Name)
+		if cl != nil {
+			tr := &goTranslator{ex: ex, pkg: pkg, params: map[string]string{}, c: c}
+			for i := range fn.Params {
+				tr.params[names[i]] = "a_" + names[i]
+			}
+			for i := range resNames {
+				tr.params[rn[i]] = resNames[i]
+			}
+			g, err := tr.expr(cl.E)
+			if err == nil {
+				clauseGo = g
+				olds = tr.olds
+			} else {
+				res.Reason = "clause not translatable to Go: " + err.Error()
+			}
+		}
+	}
+	var src strings.Builder
+	fmt.Fprintf(&src, "package %s\n\nimport (\n\t\"fmt\"\n\t\"strings\"\n\t\"testing\"\n)\n\nvar _ = strings.Index\n\n", pkg.Name())
+	src.WriteString("func verifMkSlice[T any](n, c int, elems []T) []T {\n\tif n < 0 || n > 64 || c < n || c > 128 {\n\t\tpanic(\"verif-replay: slice shape outside the replayable range\")\n\t}\n\ts := make([]T, n, c)\n\tfor i := 0; i < n && i < len(elems); i++ {\n\t\ts[i] = elems[i]\n\t}\n\treturn s\n}\n\n")
+	src.WriteString("func TestVerifReplay(t *testing.T) {\n")
+	for _, l := range setup {
+		src.WriteString("\t" + l + "\n")
+	}
+	for i, od := range olds {
+		fmt.Fprintf(&src, "\told%d := %s\n", i, od)
+	}
+	for _, r := range resNames {
+		_ = r
+	}
+	for i := 0; i < sig.Results().Len(); i++ {
+		fmt.Fprintf(&src, "\tvar %s %s\n", resNames[i], goTypeString(sig.Results().At(i).Type(), pkg))
+	}
+	src.WriteString("\tpanicked := false\n\tvar pv any\n\tfunc() {\n\t\tdefer func() {\n\t\t\tif e := recover(); e != nil {\n\t\t\t\tpanicked, pv = true, e\n\t\t\t}\n\t\t}()\n")
+	if len(resNames) > 0 {
+		fmt.Fprintf(&src, "\t\t%s = %s\n", strings.Join(resNames, ", "), call)
+	} else {
+		fmt.Fprintf(&src, "\t\t%s\n", call)
+	}
+	src.WriteString("\t}()\n")
+	src.WriteString("\tfmt.Printf(\"REPLAY panicked=%v panic=%v\\n\", panicked, pv)\n")
+	for _, r := range resNames {
+		fmt.Fprintf(&src, "\tfmt.Printf(\"REPLAY result %s=%%#v\\n\", %s)\n", r, r)
+	}
+	for _, r := range resNames {
+		fmt.Fprintf(&src, "\t_ = %s\n", r)
+	}
+	for i, p := range fn.Params {
+		_ = p
+		fmt.Fprintf(&src, "\t_ = a_%s\n", names[i])
+	}
+	if clauseGo != "" {
+		fmt.Fprintf(&src, "\tif !panicked {\n\t\tfmt.Printf(\"REPLAY clause=%%v\\n\", %s)\n\t}\n", clauseGo)
+	}
+	src.WriteString("}\n")
+	os.MkdirAll(dir, 0o755)
+	testFile := filepath.Join(dir, sanitizeFile(o.Name)+"_replay_test.go")
+	os.WriteFile(testFile, []byte(src.String()), 0o644)
+	res.TestFile = testFile
+	res.TestSource = src.String()
+	// run through an overlay
+	pkgDir := filepath.Join(repo, strings.TrimPrefix(strings.TrimPrefix(pkg.Path(), modulePath), "/"))
+	ov := map[string]map[string]string{"Replace": {filepath.Join(pkgDir, "zz_verif_replay_test.go"): testFile}}
+	ovb, _ := json.Marshal(ov)
+	ovFile := filepath.Join(dir, sanitizeFile(o.Name)+"_overlay.json")
+	os.WriteFile(ovFile, ovb, 0o644)
+	cmdline := fmt.Sprintf("cd %s && go test -overlay %s -vet=off -count=1 -timeout 60s -v -run '^TestVerifReplay$' .", pkgDir, ovFile)
+	res.Command = cmdline
+	ctx, cancel := context.WithTimeout(context.Background(), 180*time.Second)
+	defer cancel()
+	cmd := exec.CommandContext(ctx, "go", "test", "-overlay", ovFile, "-vet=off", "-count=1", "-timeout", "60s", "-v", "-run", "^TestVerifReplay$", ".")
+	cmd.Dir = pkgDir
+	cmd.Env = append(os.Environ(), "GOFLAGS=-mod=mod", "GOPROXY=off", "GOSUMDB=off", "GOTOOLCHAIN=local")
+	out, _ := cmd.CombinedOutput()
+	var keep []string
+	for _, l := range strings.Split(string(out), "\n") {
+		if strings.HasPrefix(l, "REPLAY") || strings.HasPrefix(l, "--- ") || strings.HasPrefix(l, "FAIL") || strings.HasPrefix(l, "ok") || strings.Contains(l, "_test.go:") {
+			keep = append(keep, l)
+		}
+	}
+	res.Output = strings.Join(keep, "\n")
+	panicked := strings.Contains(res.Output, "REPLAY panicked=true")
+	ran := strings.Contains(res.Output, "REPLAY panicked=")
+	switch {
+	case !ran:
+		res.Reason = "the generated test did not run (see output)"
+	case strings.Contains(res.Output, "verif-replay: slice shape"):
+		res.Reason = "the model uses a slice shape outside the replayable range"
+	case o.Class == "safe":
+		res.Reproduced = panicked
+		if !panicked {
+			res.Reason = "the real code did not panic on the model's input (the abstraction of an assumed callee is coarser than the real callee)"
+		}
+	case o.Class == "ensures":
+		if panicked {
+			res.Reason = "the real code panicked instead of returning"
+		} else if strings.Contains(res.Output, "REPLAY clause=false") {
+			res.Reproduced = true
+		} else if strings.Contains(res.Output, "REPLAY clause=true") {
+			res.Reason = "the clause holds on the real code for the model's input (the model relies on an abstracted callee or on state outside the replayed part)"
+		} else if res.Reason == "" {
+			res.Reason = "clause not evaluated"
+		}
+	}
+	if len(rb.unsup) > 0 && !res.Reproduced {
+		res.Reason += "; not taken from the model: " + strings.Join(rb.unsup, ", ")
+	}
+	return res
+}
+
+func findClause(c *Contract, oblName string) *Clause {
+	i := strings.Index(oblName, "#ensures:")
+	if i < 0 {
+		return nil
+	}
+	label := oblName[i+len("#ensures:"):]
+	if j := strings.Index(label, "/"); j >= 0 {
+		label = label[:j]
+	}
+	for k, e := range c.Ensures {
+		if clauseLabel(e, k) == label {
+			return e
+		}
+	}
+	return nil
+}
+
+// parseGetValue parses "((rv0 v0) (rv1 v1) ...)" possibly spread over lines.
+func parseGetValue(out string) map[string]string {
+	res := map[string]string{}
+	i := strings.Index(out, "((")
+	if i < 0 {
+		return res
+	}
+	s := out[i+1:]
+	// iterate over top-level pairs
+	depth := 0
+	start := -1
+	inStr := false
+	for k := 0; k < len(s); k++ {
+		c := s[k]
+		if inStr {
+			if c == '"' {
+				if k+1 < len(s) && s[k+1] == '"' {
+					k++
+					continue
+				}
+				inStr = false
+			}
+			continue
+		}
+		switch c {
+		case '"':
+			inStr = true
+		case '(':
+			if depth == 0 {
+				start = k
+			}
+			depth++
+		case ')':
+			depth--
+			if depth == 0 && start >= 0 {
+				pair := s[start+1 : k]
+				sp := strings.IndexAny(pair, " \n")
+				if sp > 0 {
+					res[pair[:sp]] = strings.TrimSpace(pair[sp+1:])
+				}
+				start = -1
+			}
+			if depth < 0 {
+				return res
+			}
+		}
+	}
+	return res
+}
+
+var reNeg = regexp.MustCompile(`^\(-\s*([0-9]+)\)$`)
+var reUni = regexp.MustCompile(`\\u\{([0-9a-fA-F]+)\}|\\u([0-9a-fA-F]{4})|\\x([0-9a-fA-F]{2})`)
+
+func smtValueToGo(v string) (string, bool) {
+	v = strings.TrimSpace(v)
+	switch {
+	case v == "true" || v == "false":
+		return v, true
+	case reNeg.MatchString(v):
+		return "-" + reNeg.FindStringSubmatch(v)[1], true
+	case strings.HasPrefix(v, "\""):
+		body := v[1 : len(v)-1]
+		body = strings.ReplaceAll(body, `""`, `"`)
+		var bs []byte
+		for len(body) > 0 {
+			loc := reUni.FindStringSubmatchIndex(body)
+			if loc == nil || loc[0] != 0 {
+				if loc == nil {
+					bs = append(bs, body...)
+					break
+				}
+				bs = append(bs, body[:loc[0]]...)
+				body = body[loc[0]:]
+				continue
+			}
+			m := reUni.FindStringSubmatch(body)
+			hex := m[1] + m[2] + m[3]
+			n, _ := strconv.ParseInt(hex, 16, 32)
+			if n > 255 {
+				return "", false
+			}
+			bs = append(bs, byte(n))
+			body = body[loc[1]:]
+		}
+		return strconv.Quote(string(bs)), true
+	}
+	if _, err := strconv.ParseInt(v, 10, 64); err == nil {
+		return v, true
+	}
+	return "", false
+}
+
+// ---------------------------------------------------------------------------
+// spec clause -> Go expression (subset)
+
+type goTranslator struct {
+	ex     *Exec
+	pkg    *types.Package
+	params map[string]string
+	c      *Contract
+	olds   []string
+	inOld  bool
+	depth  int
+	bound  map[string]string
+}
+
+func (tr *goTranslator) expr(e Expr) (string, error) {
+	switch x := e.(type) {
+	case *EInt:
+		return x.V, nil
+	case *EStr:
+		return strconv.Quote(x.V), nil
+	case *EIdent:
+		if g, ok := tr.bound[x.Name]; ok {
+			return g, nil
+		}
+		if g, ok := tr.params[x.Name]; ok {
+			return g, nil
+		}
+		switch x.Name {
+		case "nil", "true", "false":
+			return x.Name, nil
+		}
+		if tr.pkg.Scope().Lookup(x.Name) != nil {
+			return x.Name, nil
+		}
+		return "", fmt.Errorf("identifier %s", x.Name)
+	case *EOld:
+		if tr.inOld {
+			return tr.expr(x.X)
+		}
+		tr.inOld = true
+		g, err := tr.expr(x.X)
+		tr.inOld = false
+		if err != nil {
+			return "", err
+		}
+		tr.olds = append(tr.olds, g)
+		return fmt.Sprintf("old%d", len(tr.olds)-1), nil
+	case *EUn:
+		g, err := tr.expr(x.X)
+		if err != nil {
+			return "", err
+		}
+		if x.Op == "&" {
+			return "(&" + g + ")", nil
+		}
+		return "(" + x.Op + g + ")", nil
+	case *EBin:
+		a, err := tr.expr(x.X)
+		if err != nil {
+			return "", err
+		}
+		b, err := tr.expr(x.Y)
+		if err != nil {
+			return "", err
+		}
+		switch x.Op {
+		case "==>":
+			return "(!(" + a + ") || (" + b + "))", nil
+		case "<==>":
+			return "((" + a + ") == (" + b + "))", nil
+		case "++":
+			return "(" + a + " + " + b + ")", nil
+		case "in":
+			return "func() bool { _, ok := " + b + "[" + a + "]; return ok }()", nil
+		}
+		return "(" + a + " " + x.Op + " " + b + ")", nil
+	case *ECond:
+		c, err := tr.expr(x.C)
+		if err != nil {
+			return "", err
+		}
+		a, err := tr.expr(x.A)
+		if err != nil {
+			return "", err
+		}
+		b, err := tr.expr(x.B)
+		if err != nil {
+			return "", err
+		}
+		return "func() int { if " + c + " { return int(" + a + ") }; return int(" + b + ") }()", nil
+	case *EField:
+		a, err := tr.expr(x.X)
+		if err != nil {
+			return "", err
+		}
+		return a + "." + x.Name, nil
+	case *EIndex:
+		a, err := tr.expr(x.X)
+		if err != nil {
+			return "", err
+		}
+		b, err := tr.expr(x.I)
+		if err != nil {
+			return "", err
+		}
+		return a + "[" + b + "]", nil
+	case *ESlice:
+		a, err := tr.expr(x.X)
+		if err != nil {
+			return "", err
+		}
+		lo, hi := "", ""
+		if x.Lo != nil {
+			if lo, err = tr.expr(x.Lo); err != nil {
+				return "", err
+			}
+		}
+		if x.Hi != nil {
+			if hi, err = tr.expr(x.Hi); err != nil {
+				return "", err
+			}
+		}
+		return a + "[" + lo + ":" + hi + "]", nil
+	case *EQuant:
+		// bounded quantifier over int of the shape  lo <= i && i < hi ==> body
+		if len(x.Vars) == 1 && x.Vars[0].Type == "int" && x.Forall {
+			if imp, ok := x.Body.(*EBin); ok && imp.Op == "==>" {
+				if rng, ok := imp.X.(*EBin); ok && rng.Op == "&&" {
+					lo, ok1 := rng.X.(*EBin)
+					hi, ok2 := rng.Y.(*EBin)
+					if ok1 && ok2 && lo.Op == "<=" && hi.Op == "<" {
+						v := x.Vars[0].Name
+						if tr.bound == nil {
+							tr.bound = map[string]string{}
+						}
+						tr.bound[v] = "q_" + v
+						loG, e1 := tr.expr(lo.X)
+						hiG, e2 := tr.expr(hi.Y)
+						body, e3 := tr.expr(imp.Y)
+						delete(tr.bound, v)
+						if e1 == nil && e2 == nil && e3 == nil {
+							return fmt.Sprintf("func() bool { for q_%s := int(%s); q_%s < int(%s); q_%s++ { if !(%s) { return false } }; return true }()", v, loG, v, hiG, v, body), nil
+						}
+					}
+				}
+			}
+		}
+		return "", fmt.Errorf("quantifier")
+	case *ECall:
+		if sf, ok := tr.ex.ct.Specs[x.Fn]; ok {
+			if tr.depth > 10 {
+				return "", fmt.Errorf("spec recursion")
+			}
+			// substitute arguments
+			saved := tr.bound
+			nb := map[string]string{}
+			for k, v := range saved {
+				nb[k] = v
+			}
+			for i, p := range sf.Params {
+				g, err := tr.expr(x.Args[i])
+				if err != nil {
+					return "", err
+				}
+				nb[p.Name] = g
+			}
+			tr.bound = nb
+			tr.depth++
+			g, err := tr.expr(sf.Body)
+			tr.depth--
+			tr.bound = saved
+			return g, err
+		}
+		var args []string
+		for _, a := range x.Args {
+			if _, isT := a.(*EType); isT {
+				return "", fmt.Errorf("type argument in %s", x.Fn)
+			}
+			g, err := tr.expr(a)
+			if err != nil {
+				return "", err
+			}
+			args = append(args, g)
+		}
+		switch x.Fn {
+		case "len", "cap", "min", "max":
+			return x.Fn + "(" + strings.Join(args, ", ") + ")", nil
+		case "at":
+			return "int(" + args[0] + "[" + args[1] + "])", nil
+		case "substr":
+			return args[0] + "[" + args[1] + ":" + args[1] + "+" + args[2] + "]", nil
+		case "indexof":
+			return "strings.Index(" + args[0] + ", " + args[1] + ")", nil
+		case "contains":
+			return "strings.Contains(" + args[0] + ", " + args[1] + ")", nil
+		case "prefixof":
+			return "strings.HasPrefix(" + args[1] + ", " + args[0] + ")", nil
+		case "suffixof":
+			return "strings.HasSuffix(" + args[1] + ", " + args[0] + ")", nil
+		case "int8":
+			return "int8(" + args[0] + ")", nil
+		}
+		return "", fmt.Errorf("function %s (ghost state and model functions are not observable on the real code)", x.Fn)
+	}
+	return "", fmt.Errorf("expression %s", e)
+}
+
+var _ = ssa.BuilderMode(0)
